@@ -751,8 +751,17 @@ func execOp(c *hx.Ctx, o hx.Op) string {
 					exp := showData(&sd.Data) + " " + showSigner(&sd.Signer)
 					got := showData(&sd2.Data) + " " + showSigner(&sd2.Signer)
 					if sd.Signer.PubKey == nil && len(sd.Signer.Address) > 0 {
-						if got != exp {
+						// the recorded finding is exactly: the address (and nothing else) is lost. Everything else is
+						// compared on this branch too, and any further difference is a different violation.
+						rest := showData(&sd.Data) == showData(&sd2.Data) && bytes.Equal(sd.Signature, sd2.Signature) &&
+							bytes.Equal(sd.Data.Hash(), sd2.Data.Hash()) && bytes.Equal(sd.Data.DACommitment(), sd2.Data.DACommitment()) && sd2.Signer.PubKey == nil
+						switch {
+						case !rest:
+							c.Report("C12/roundtrip/signeddata/differs", "signer address without key, and more than the address differs: "+exp+" -> "+got)
+						case len(sd2.Signer.Address) == 0:
 							c.Report("C12/roundtrip/signer-address-without-key-dropped", "signeddata")
+						case !bytes.Equal(sd.Signer.Address, sd2.Signer.Address):
+							c.Report("C12/roundtrip/signeddata/signer-address-altered", exp+" -> "+got)
 						}
 					} else if got != exp || !bytes.Equal(sd.Signature, sd2.Signature) {
 						c.Report("C12/roundtrip/signeddata/differs", exp+" -> "+got)
@@ -942,8 +951,17 @@ func checkSHRoundTrip(c *hx.Ctx, sh *types.SignedHeader, b []byte) (deepEqual bo
 	exp := showHeader(&sh.Header) + " " + showSigner(&sh.Signer)
 	got := showHeader(&sh2.Header) + " " + showSigner(&sh2.Signer)
 	if sh.Signer.PubKey == nil && len(sh.Signer.Address) > 0 {
-		if got != exp {
+		// the recorded finding is exactly: the address (and nothing else) is lost. Header fields, signature and hash
+		// are compared on this branch too, and any further difference is a different violation.
+		rest := showHeader(&sh.Header) == showHeader(&sh2.Header) && bytes.Equal(sh.Signature, sh2.Signature) &&
+			bytes.Equal(sh.Hash(), sh2.Hash()) && sh2.Signer.PubKey == nil
+		switch {
+		case !rest:
+			c.Report("C12/roundtrip/signedheader/differs", "signer address without key, and more than the address differs: "+exp+" -> "+got)
+		case len(sh2.Signer.Address) == 0:
 			c.Report("C12/roundtrip/signer-address-without-key-dropped", "signedheader")
+		case !bytes.Equal(sh.Signer.Address, sh2.Signer.Address):
+			c.Report("C12/roundtrip/signedheader/signer-address-altered", exp+" -> "+got)
 		}
 	} else if got != exp || !bytes.Equal(sh.Signature, sh2.Signature) || !bytes.Equal(sh.Hash(), sh2.Hash()) {
 		c.Report("C12/roundtrip/signedheader/differs", exp+" -> "+got)
